@@ -7,7 +7,11 @@ use super::*;
 /// P = position of the first dot (P == L: no dot).  The label before the first dot is concrete filler (letters, a digit, '-' and '_') (the function
 /// only searches it for a dot; a symbolic label makes `str::find` + `replace_range` run out of memory in symex), the
 /// host part after the first dot is symbolic over {a, b, .}.
-fn scrub_sni_shape<const P: usize, const L: usize, const OUT: usize>() {
+/// Fillers of the credentials label: letters, a digit and the punctuation a label may contain (never a dot); the
+/// second one starts with the placeholder text itself (a label that merely *begins* like an already scrubbed name).
+const FILL: [&[u8]; 2] = [b"q-_7", b"scrubbed-7q_"];
+
+fn scrub_sni_shape<const P: usize, const L: usize, const OUT: usize, const F: usize>() {
     // OUT = 8 + (L - P) when P < L, else L
     let tail: [u8; L] = kani::any();
     let mut v = Vec::with_capacity(L);
@@ -15,7 +19,7 @@ fn scrub_sni_shape<const P: usize, const L: usize, const OUT: usize>() {
     while i < L {
         if i < P {
             // filler of the credentials label: letters, digits and the punctuation a label may contain (never a dot)
-            v.push(b"q-_7"[i % 4]);
+            v.push(FILL[F][i % FILL[F].len()]);
         } else if i == P {
             v.push(b'.');
         } else {
@@ -31,7 +35,7 @@ fn scrub_sni_shape<const P: usize, const L: usize, const OUT: usize>() {
         assert!(ob.len() == L, "C20.sni.nodot_len: an SNI without credentials label must be unchanged");
         let mut i = 0;
         while i < L {
-            assert!(ob[i] == b"q-_7"[i % 4], "C20.sni.nodot: an SNI without credentials label must be unchanged");
+            assert!(ob[i] == FILL[F][i % FILL[F].len()], "C20.sni.nodot: an SNI without credentials label must be unchanged");
             i += 1;
         }
     } else {
@@ -53,9 +57,69 @@ fn scrub_sni_shape<const P: usize, const L: usize, const OUT: usize>() {
 }
 
 /*@gen
-{"name": "c20_scrub_sni_label{0}_len{1}", "call": "scrub_sni_shape::<{0}, {1}, {2}>()", "unwind": "{1} + 12", "stubs": ["memchr"], "core": true,
+{"name": "c20_scrub_sni_label{0}_len{1}", "call": "scrub_sni_shape::<{0}, {1}, {2}, 0>()", "unwind": "{1} + 12", "stubs": ["memchr"], "core": true,
  "bound": "SNI of {1} bytes whose first dot is at offset {0} (offset == length: no dot); label = filler, host part symbolic over a, b, dot",
- "desc": "scrub_sni replaces the label before the first dot by the placeholder for the enumerated label lengths (0..=20 bytes; instances with 63- and 64-byte labels exhaust 10 GB and are not part of any tier) and leaves dot-free names unchanged",
+ "desc": "scrub_sni replaces the label before the first dot by the placeholder for the enumerated label lengths (0..=20 bytes; longer labels: c20_scrub_sni_long_*) and leaves dot-free names unchanged",
  "encodes": ["net_utils::scrub_sni"],
  "quick": "[(0,3,11),(1,4,11),(3,7,12),(5,5,5),(12,14,10)]", "thorough": "[(2,2,2),(7,12,13),(17,20,11),(20,24,12)]"}
+@*/
+
+/*@gen
+{"name": "c20_scrub_sni_phlabel{0}_len{1}", "call": "scrub_sni_shape::<{0}, {1}, {2}, 1>()", "unwind": "{1} + 12", "stubs": ["memchr"], "core": true,
+ "bound": "SNI of {1} bytes whose first dot is at offset {0} (offset == length: no dot); label = filler starting with the placeholder text `scrubbed`, host part symbolic over a, b, dot",
+ "desc": "scrub_sni replaces a label that itself begins with (or is) the placeholder text",
+ "encodes": ["net_utils::scrub_sni"],
+ "quick": "[(8,10,10),(9,12,11),(12,14,10)]", "thorough": "[(4,6,10),(10,10,10),(16,19,11)]"}
+@*/
+
+/// Long credentials labels (DNS allows 63 bytes; an SNI label is not checked against that limit).  The backing store
+/// of the String is a stack array (stack objects are constant-folded by symex, heap objects are not) and nothing is
+/// freed (`nofree`); `replace_range` with a replacement shorter than the label never reallocates.  The label is
+/// concrete filler, the last byte of the name is symbolic.  CBMC stops treating an array
+/// field-sensitively above 64 elements (`--max-field-sensitivity-array-size`): the backing array of a longer name is
+/// then no longer constant-folded and a 67-byte instance exhausts 10 GB (measured), so the instances with names
+/// longer than 64 bytes (`c20_scrub_sni_xlong_*`) are decided with that bound raised to 160 (`@cbmc`, 18 s).
+fn scrub_sni_long_shape<const P: usize, const L: usize>() {
+    let mut raw = [0u8; L];
+    let mut i = 0;
+    while i < L {
+        raw[i] = if i == P { b'.' } else { b"q-_7"[i % 4] };
+        i += 1;
+    }
+    // the last byte of the host part is symbolic when there is a host part (P == L - 1: the name ends with the dot)
+    let last: u8 = if P + 1 < L { kani::any() } else { b'.' };
+    kani::assume(last == b'a' || last == b'.');
+    raw[L - 1] = last;
+    let mut slot = std::mem::ManuallyDrop::new(raw);
+    let v = crate::verif_env::stack_vec(&mut slot);
+    let s = unsafe { String::from_utf8_unchecked(v) };
+    let out = std::mem::ManuallyDrop::new(scrub_sni(s));
+    let ob = out.as_bytes();
+    let ph = SCRUBBED_PLACEHOLDER.as_bytes();
+    assert!(ob.len() == ph.len() + (L - P), "C20.sni.long_len: scrubbed SNI must be placeholder + suffix from the first dot (a long credentials label is still there)");
+    let mut i = 0;
+    while i < ph.len() {
+        assert!(ob[i] == ph[i], "C20.sni.long_placeholder: the first label must be replaced by the placeholder");
+        i += 1;
+    }
+    assert!(ob[ph.len()] == b'.', "C20.sni.long_dot: the host part must start at the first dot");
+    assert!(ob[ob.len() - 1] == last, "C20.sni.long_suffix: the host part must be preserved");
+    kani::cover!(true, "C20.cover.sni_long_reached");
+}
+
+/*@gen
+{"name": "c20_scrub_sni_long_label{0}_len{1}", "call": "scrub_sni_long_shape::<{0}, {1}>()", "unwind": "{1} + 12", "stubs": ["memchr", "nofree"], "core": true,
+ "bound": "SNI of {1} bytes whose first dot is at offset {0}; label = filler, last byte symbolic over a, dot",
+ "desc": "scrub_sni replaces a long label (up to and beyond the 63-byte DNS label limit) before the first dot by the placeholder",
+ "encodes": ["net_utils::scrub_sni"],
+ "quick": "[(32,36),(63,64)]", "thorough": "[(48,52),(60,64),(62,64)]"}
+@*/
+
+/*@gen
+{"name": "c20_scrub_sni_xlong_label{0}_len{1}", "call": "scrub_sni_long_shape::<{0}, {1}>()", "unwind": "{1} + 12", "stubs": ["memchr", "nofree"], "core": true,
+ "cbmc": "--max-field-sensitivity-array-size 160",
+ "bound": "SNI of {1} bytes whose first dot is at offset {0}; label = filler, last byte symbolic over a, dot; CBMC field sensitivity raised to 160 elements",
+ "desc": "scrub_sni replaces a label longer than the 63-byte DNS limit before the first dot by the placeholder",
+ "encodes": ["net_utils::scrub_sni"],
+ "quick": "[(64,68)]", "thorough": "[(65,70),(100,104),(128,140)]"}
 @*/
